@@ -168,6 +168,8 @@ impl<'a, N: Normalizer> XmlSerializer<'a, N> {
                     });
                 }
                 let namespace = self.xot.namespace_str(*namespace_id);
+                // the URI is written as an attribute value
+                let namespace = serialize_attribute(namespace.into(), &self.normalizer);
                 if *prefix_id == self.xot.empty_prefix_id {
                     OutputToken {
                         space: true,
